@@ -123,7 +123,7 @@ fn data_frame_exact(kind: u8) {
                 assert!(out[total - 4] == mm.out[0] && out[total - 3] == mm.out[1] && out[total - 2] == mm.out[2] && out[total - 1] == mm.out[3], "C01: MIC = first four CMAC bytes");
             }
             kani::cover!(kind == 0 || plen == MAXP, "33-byte payload (three keystream blocks)");
-            kani::cover!(fol == 15, "15 bytes of FOpts");
+            kani::cover!(kind == 2 || fol == 15, "15 bytes of FOpts");
         }
     }
 }
